@@ -1,5 +1,6 @@
 //! GList, List and MerkleReg adapters.
 use crate::dump::{dump, Dump};
+use crate::rng::Rng;
 use crate::sut::*;
 use crdts::merkle_reg::{MerkleReg, Node};
 use crdts::{glist, list, CmRDT, CvRDT, GList, List};
@@ -21,36 +22,42 @@ impl Sut for GL {
     fn new() -> Self {
         GList::new()
     }
-    fn gen(&self, _actor: A, cmd: (u8, u8, u8), sh: &mut Shadow, _old: &Self) -> Option<Gen<Self::Op>> {
+    fn random_cmd(rng: &mut Rng, _sh: &Shadow) -> Cmd {
+        let k = ["insert", "insert_after", "insert_before"][rng.below(3)];
+        // a = [position mode, raw index]: 0 = head, 1 = tail, otherwise raw index modulo the live length
+        Cmd::new(k, vec![rng.below(4) as u64, rng.below(250) as u64])
+    }
+    fn gen(&self, _actor: A, cmd: &Cmd, sh: &mut Shadow, _old: &Self) -> Option<Gen<Self::Op>> {
         let before: Vec<u32> = self.read::<Vec<&u32>>().into_iter().cloned().collect();
         let len = before.len();
         let elem = sh.uniq();
         let mut model = before.clone();
+        let (mode, raw) = (cmd.arg(0), cmd.arg(1) as usize);
         let pick = |n: usize| -> usize {
-            match cmd.2 % 4 {
+            match mode {
                 0 => 0,
                 1 => n.saturating_sub(1),
-                _ => (cmd.1 as usize) % n.max(1),
+                _ => raw % n.max(1),
             }
         };
-        let (op, desc) = match cmd.0 % 3 {
-            1 if len > 0 => {
+        let (op, desc) = match cmd.k.as_str() {
+            "insert_after" if len > 0 => {
                 let ix = pick(len);
                 let id = self.get(ix).unwrap().clone();
                 model.insert(ix + 1, elem);
                 (self.insert_after(Some(&id), elem), format!("insert_after(#{ix}, {elem})"))
             }
-            2 if len > 0 => {
+            "insert_before" if len > 0 => {
                 let ix = pick(len);
                 let id = self.get(ix).unwrap().clone();
                 model.insert(ix, elem);
                 (self.insert_before(Some(&id), elem), format!("insert_before(#{ix}, {elem})"))
             }
             _ => {
-                let ix = match cmd.2 % 4 {
+                let ix = match mode {
                     0 => 0,
                     1 => len,
-                    _ => (cmd.1 as usize) % (len + 1),
+                    _ => raw % (len + 1),
                 };
                 model.insert(ix, elem);
                 (self.insert(ix, elem), format!("insert({ix}, {elem})"))
@@ -118,21 +125,31 @@ impl Sut for LI {
     fn new() -> Self {
         List::new()
     }
-    fn gen(&self, actor: A, cmd: (u8, u8, u8), sh: &mut Shadow, _old: &Self) -> Option<Gen<Self::Op>> {
+    fn random_cmd(rng: &mut Rng, _sh: &Shadow) -> Cmd {
+        let c = rng.below(10);
+        let k = if c < 3 { "delete" } else if c == 9 { "append" } else { "insert" };
+        // a = [position mode, raw index]; hostile positions: 0 head, 1 tail, 2 beyond the end, 3 a shared
+        // "hot" index so that replicas collide, otherwise raw index modulo the live length
+        Cmd::new(k, vec![rng.below(6) as u64, rng.below(250) as u64])
+    }
+    fn gen(&self, actor: A, cmd: &Cmd, sh: &mut Shadow, _old: &Self) -> Option<Gen<Self::Op>> {
         let before: Vec<u32> = self.read::<Vec<&u32>>().into_iter().cloned().collect();
         let len = before.len();
         let mut model = before.clone();
-        // hostile indices: head, tail, beyond len, and a shared "hot" index so replicas collide
+        let (mode, raw) = (cmd.arg(0), cmd.arg(1) as usize);
         let ix_of = |n: usize| -> usize {
-            match cmd.2 % 6 {
+            match mode {
                 0 => 0,
                 1 => n,
                 2 => n + 2,
                 3 => 1.min(n),
-                _ => (cmd.1 as usize) % (n + 1),
+                _ => raw % (n + 1),
             }
         };
-        if len > 0 && cmd.0 % 10 < 3 {
+        if cmd.k == "delete" {
+            if len == 0 {
+                return None;
+            }
             let ix = ix_of(len - 1).min(len - 1);
             let op = self.delete_index(ix, actor)?;
             let elem = model.remove(ix);
@@ -144,7 +161,7 @@ impl Sut for LI {
             Some(g)
         } else {
             let elem = sh.uniq();
-            let (op, desc) = if cmd.0 % 10 == 9 {
+            let (op, desc) = if cmd.k == "append" {
                 model.push(elem);
                 (self.append(elem, actor), format!("append({elem})"))
             } else {
@@ -234,30 +251,37 @@ impl Sut for MK {
     fn new() -> Self {
         MerkleReg::new()
     }
-    fn gen(&self, _actor: A, cmd: (u8, u8, u8), sh: &mut Shadow, _old: &Self) -> Option<Gen<Self::Op>> {
+    fn random_cmd(rng: &mut Rng, _sh: &Shadow) -> Cmd {
+        match rng.below(6) {
+            // on top of everything read (resolves the fork)
+            0 | 1 | 2 => Cmd::new("write_heads", vec![]),
+            // on top of a subset of the heads (keeps the fork alive): a = [bit mask]
+            3 => Cmd::new("write_subset", vec![rng.below(256) as u64]),
+            // on top of arbitrary visible nodes (shared ancestors, fan-in): a = [how many, offset]
+            4 => Cmd::new("write_any", vec![rng.below(4) as u64, rng.below(250) as u64]),
+            _ => Cmd::new("write_root", vec![]),
+        }
+    }
+    fn gen(&self, _actor: A, cmd: &Cmd, sh: &mut Shadow, _old: &Self) -> Option<Gen<Self::Op>> {
         let heads: Vec<[u8; 32]> = self.read().hashes().into_iter().collect();
         let mut children: BTreeSet<[u8; 32]> = BTreeSet::new();
-        match cmd.0 % 6 {
-            // write on top of everything read (resolves the fork)
-            0 | 1 | 2 => children.extend(heads.iter().cloned()),
-            // on top of a subset of the heads (keeps the fork alive)
-            3 => {
+        match cmd.k.as_str() {
+            "write_heads" => children.extend(heads.iter().cloned()),
+            "write_subset" => {
                 for (i, h) in heads.iter().enumerate() {
-                    if (cmd.1 >> (i % 8)) & 1 == 1 {
+                    if (cmd.arg(0) >> (i % 8)) & 1 == 1 {
                         children.insert(*h);
                     }
                 }
             }
-            // on top of arbitrary visible nodes (shared ancestors, fan-in)
-            4 => {
+            "write_any" => {
                 let all: Vec<[u8; 32]> = self.all_nodes().map(|n| n.hash()).collect();
-                for i in 0..(cmd.1 % 4) as usize {
+                for i in 0..cmd.arg(0) as usize {
                     if !all.is_empty() {
-                        children.insert(all[(cmd.2 as usize + i * 7) % all.len()]);
+                        children.insert(all[(cmd.arg(1) as usize + i * 7) % all.len()]);
                     }
                 }
             }
-            // a new root
             _ => {}
         }
         let idx = sh.next_op_id;
